@@ -337,7 +337,7 @@ def rule_r3(repo):
 def rule_r4(repo):
     rr = RuleResult('C14.R4', 'unknown descriptors become Undefined* placeholders (refused by the walk); Table D is loaded in two passes')
     for cname, undefined in (('TableB', 'UndefinedElementDescriptor'), ('TableD', 'UndefinedSequenceDescriptor')):
-        fi = repo.own_method(cname, 'lookup')
+        fi = repo.method(cname, 'lookup')
         it = BuildInterp(repo, cname)
         known = Obj('KnownDescriptor', {'id': 12101})
         for i, want in ((12101, 'KnownDescriptor'), ('012101', 'KnownDescriptor'), (63255, undefined)):
